@@ -31,11 +31,28 @@ def rename_hostile(rng, spec):
         for x in a.get('assets', []): coll(x)
     for a in spec['assets']: coll(a)
     nodes = sorted({n for a in spec['assets'] for n in _nodes(a)})
-    pool = gen.hostile_names(rng, len(names) + len(nodes))
-    if len(pool) < len(names) + len(nodes):
+    # assets and nodes are separate name spaces: each renaming is injective on its own, an asset may carry the name of a node, and concatenations of
+    # asset and node names may coincide ('1'+'11' = '11'+'1')
+    pool_a = gen.hostile_names(rng, len(names)); pool_n = gen.hostile_names(rng, len(nodes))
+    if len(pool_a) < len(names) or len(pool_n) < len(nodes):
         return spec, {}
-    amap = dict(zip(names, pool[:len(names)]))
-    nmap = dict(zip(nodes, pool[len(names):]))
+    amap = dict(zip(names, pool_a))
+    nmap = dict(zip(nodes, pool_n))
+    tops = [a for a in spec['assets'] if a.get('nodes') and a['type'] not in ('StructuredAsset', 'LinkedAsset', 'ScaledAsset')]
+    if len(nodes) >= 2 and len(tops) >= 2 and rng.random() < 0.25:
+        # two (asset, node) pairs whose concatenated names coincide: asset p in node pq and asset pq in node p
+        for _ in range(10):
+            a1, a2 = [tops[int(i)] for i in rng.permutation(len(tops))[:2]]
+            n1, n2 = a1['nodes'][0], a2['nodes'][0]
+            if n1 != n2:
+                pa, pb = gen.pick(rng, [('1', '11'), ('a', 'ab'), ('0', '00'), ('x', 'x (y)')])
+                def put(mp, key, val):
+                    for k_, v_ in list(mp.items()):
+                        if v_ == val and k_ != key:
+                            mp[k_] = mp[key]          # swap: stays injective
+                    mp[key] = val
+                put(amap, a1['name'], pa); put(amap, a2['name'], pb); put(nmap, n1, pb); put(nmap, n2, pa)
+                break
     def ren(a):
         a['name'] = amap[a['name']]
         if 'nodes' in a and a['nodes'] is not None:
